@@ -72,10 +72,11 @@ theorem stale_never_handed_out (c : Conn) (k : FKind) (hd : c.hasDbapi = true)
 
 
 /-- the clock discipline assumed above holds in every reachable state -/
-theorem pooltime_reachable (rs : ResetStyle) (ls : Listener) (ops : List Op) :
-    let c := (Conn.connect (DB.init rs ls)).run ops
+theorem pooltime_reachable (rs : ResetStyle) (ls : Listener) (eo : List Bool) (rc : Option Nat)
+    (ops : List Op) :
+    let c := (Conn.connect (DB.init rs ls eo rc)).run ops
     PoolTime c.db c.hasDbapi := by
-  have h0 : GenC 0 (Conn.connect (DB.init rs ls)) := by
+  have h0 : GenC 0 (Conn.connect (DB.init rs ls eo rc)) := by
     refine connect_gen ⟨⟨?_, Nat.le_refl _, fun e => (by cases e)⟩, ⟨Nat.zero_le _, ?_, fun e => (by cases e)⟩⟩
     · intro r hr; simp [DB.init] at hr
     · intro r hr; simp [DB.init] at hr
@@ -134,12 +135,12 @@ theorem reconnect_after_rollback (c : Conn) (hb : Blocked c) (hroot : RootPtr c)
 /-- the same for every REACHABLE blocked state: the structural hypotheses are invariants
     (`wf_all`), so after any history that ends invalidated inside a transaction, `rollback()`
     un-blocks the Connection -/
-theorem reconnect_after_rollback_reachable (rs : ResetStyle) (ls : Listener) (eo : List Bool)
-    (ops : List Op) (hb : Blocked ((Conn.connect (DB.init rs ls eo)).run ops)) :
-    let c := (Conn.connect (DB.init rs ls eo)).run ops
+theorem reconnect_after_rollback_reachable (rs : ResetStyle) (ls : Listener) (eo : List Bool) (rc : Option Nat)
+    (ops : List Op) (hb : Blocked ((Conn.connect (DB.init rs ls eo rc)).run ops)) :
+    let c := (Conn.connect (DB.init rs ls eo rc)).run ops
     c.rollback.2 = .ok ∧ c.rollback.1.db = c.db ∧ c.rollback.1.invalidated = true ∧
     c.rollback.1.inTransaction = false ∧ c.rollback.1.inNested = false := by
-  have hw := run_wfc ops (Conn.connect (DB.init rs ls eo)) (wfc_empty rfl rfl rfl)
+  have hw := run_wfc ops (Conn.connect (DB.init rs ls eo rc)) (wfc_empty rfl rfl rfl)
   obtain ⟨r1, r2, r3, r4, r5, r6, _⟩ := blocked_rollback hb hw.1 hw.2
   exact ⟨r1, r2, by simp [Conn.invalidated, r5, r6], by simp [Conn.inTransaction, r3],
     by simp [Conn.inNested, r4]⟩
@@ -182,6 +183,66 @@ theorem plain_error_leaves_pool (c : Conn) (hl : c.db.listener ≠ .forceDisc) :
     · split <;> rfl
     · rfl
 
+/-! ## failing reconnects, pool_recycle -/
+
+/-- **failed_reconnect_stays_invalidated**: when the transparent reconnect of an invalidated
+    Connection fails (the creator raises — a plain error, a disconnect-classified error or a
+    BaseException), the Connection simply stays invalidated: no DBAPI connection, no
+    transaction, reconnect still possible, and the pool gained no usable connection. -/
+theorem failed_reconnect_stays_invalidated (c : Conn) (hinv : c.invalidated = true)
+    (ht : c.transaction = none) (hf : c.revalidate.2 ≠ .ok) :
+    c.revalidate.1.invalidated = true ∧ c.revalidate.1.transaction = none ∧
+    c.revalidate.1.txns = c.txns ∧
+    (∀ r, some r ∈ c.revalidate.1.db.idle → some r ∈ c.db.idle) ∧
+    c.revalidate.1.db.invalTime = c.db.invalTime ∧ c.revalidate.1.db.committed = c.db.committed := by
+  simp only [Conn.invalidated, Bool.and_eq_true, Bool.not_eq_true'] at hinv
+  revert hf
+  simp only [Conn.revalidate, hinv.1, hinv.2, ht, Conn.invalidated]
+  cases hx : c.db.checkoutF with
+  | mk db o =>
+    cases o with
+    | none => intro h; exact absurd rfl h
+    | some k =>
+      intro _
+      obtain ⟨db1, hasRec, db2, hpre, hfault, he⟩ := checkoutF_some hx
+      have hp := checkoutPre_spec c.db
+      rw [hpre] at hp
+      have hd := takeFault_dataOnly db1 .connect
+      rw [hfault] at hd
+      have hcm : db2.committed = db1.committed := by
+        have : (db1.takeFault .connect).2.committed = db1.committed := by
+          unfold DB.takeFault; split <;> rfl
+        rw [hfault] at this; exact this
+      refine ⟨by simp, rfl, rfl, ?_, ?_, ?_⟩
+      · intro r hr
+        apply hp.idle r
+        have hr' : some r ∈ db.idle := hr
+        rw [he] at hr'
+        cases hasRec with
+        | false =>
+          have : some r ∈ db2.idle := hr'
+          rw [hd.idle] at this; exact this
+        | true =>
+          have : some r ∈ db2.idle ++ [none] := hr'
+          rcases List.mem_append.1 this with h | h
+          · rw [hd.idle] at h; exact h
+          · simp at h
+      · show db.invalTime = _
+        rw [he]
+        cases hasRec <;> exact hd.invalTime.trans hp.invalTime
+      · show db.committed = _
+        rw [he]
+        cases hasRec <;> exact hcm.trans hp.committed
+
+/-- **recycle_respects_invalidation**: whatever `pool_recycle` is configured (none, or any
+    number of seconds — the age test and the invalidation-time test of
+    `_ConnectionRecord.get_connection` are alternatives, not nested), a pooled connection is
+    handed out only if it was born after the last pool invalidation. -/
+theorem recycle_respects_invalidation (db : DB) (r : Raw) (h : db.checkoutPre.2.1 = some r) :
+    some r ∈ db.idle ∧ db.invalTime ≤ r.born := by
+  have := (checkoutPre_spec db).out r h
+  exact ⟨this.1, by have := this.2; omega⟩
+
 /-! ## where the unrestricted statement fails (finding F19)
 
 Full statement (FALSE): "whenever rollback() has been called on a Connection whose DBAPI
@@ -219,5 +280,29 @@ example : blockedState.db.idle.map (fun o => o.map (fun r => decide (r.born < bl
 /-- and after rollback the reconnect creates connection #3 rather than reusing #1 or #2 -/
 example : ((blockedState.run [.rollback, .exec .sel]).db.raw.rid) = 3 := by decide
 example : (c0.run [.warm 2, .begin, .exec (.ins 1)]).hasDbapi = true := by decide
+
+
+/-- the history of a stale disconnect flag: disconnect on execute, rollback, a reconnect that
+    fails with a disconnect-classified connect error, a reconnect that works, then a plain
+    statement error — which must leave the Connection valid on the same DBAPI connection -/
+def staleFlagOps : List Op :=
+  [.begin, .arm .execute .disc, .exec (.ins 1), .rollback, .arm .connect .disc, .exec .sel, .exec .sel,
+   .arm .execute .err, .exec (.ins 2)]
+
+example : (c0.trace staleFlagOps).map (·.1) =
+    [.ok, .ok, .disconnect, .ok, .ok, .disconnect, .ok, .ok, .operational] := by decide
+example : (c0.run staleFlagOps).hasDbapi = true ∧
+    (c0.run staleFlagOps).db.raw.rid = (c0.run (staleFlagOps.take 7)).db.raw.rid ∧
+    (c0.run staleFlagOps).db.invalTime = (c0.run (staleFlagOps.take 7)).db.invalTime := by decide
+
+/-- pool_recycle configured (not yet due): the connections pooled at the disconnect are still
+    refused afterwards -/
+def c0r : Conn := Conn.connect (DB.init .rollback .none [] (some 3600))
+example : ((c0r.run [.warm 2, .arm .execute .disc, .exec (.ins 1), .rollback, .exec .sel]).db.raw.rid) = 3 := by
+  decide
+/-- pool_recycle due: an old pooled connection is replaced although no disconnect happened -/
+def c0r2 : Conn := Conn.connect (DB.init .rollback .none [] (some 1))
+example : ((c0r2.run [.warm 2, .close, .connect]).db.raw.rid) = 3 := by decide
+example : ((c0.run [.warm 2, .close, .connect]).db.raw.rid) = 1 := by decide
 
 end SaVerif.Props.C27
